@@ -3,11 +3,12 @@
    Part 1: list / journal facts.
    Part 2: what one run-to-next-suspension of a task with SAFE code does (safe = any mix of
            send_msg of new messages, send_test_req, _state_set hooks, plain hooks, role
-           assignment: everything the library runs outside the ResendRequest service).
+           assignment, and the ResendRequest service with the replay code it unfolds into).
    Part 3: the invariant Inv (every schedule) and InvF (schedules obeying FIFO drain wake-up),
            preserved by sched_step, lifted over run_sched by induction on the schedule.
    Part 4: the statements exported by Props/C14.v.
-   Part 5: witnesses (vm_compute) for the schedules that break the property. *)
+   Part 5: examples (vm_compute): non-vacuity, the schedules that broke the property before the
+           repair of D12, and the LIFO wake-up witness. *)
 From Coq Require Import ZArith List Bool Lia.
 From AF Require Import Fix.Sched.
 Import ListNotations.
@@ -86,18 +87,78 @@ Proof.
     + f_equal. lia.
 Qed.
 
+
+Lemma in_insert : forall l n f k g, In (k, g) (insert_row n f l) <-> (k, g) = (n, f) \/ In (k, g) l.
+Proof.
+  induction l as [|[a h] l IH]; intros n f k g; simpl.
+  - intuition congruence.
+  - destruct (n <? a); simpl.
+    + intuition congruence.
+    + rewrite IH. intuition congruence.
+Qed.
+
+Lemma filter_rev {A} : forall (p : A -> bool) l, filter p (rev l) = rev (filter p l).
+Proof.
+  induction l as [|a l IH]; simpl; auto.
+  rewrite filter_app, IH. simpl. destruct (p a); simpl; auto. rewrite app_nil_r. auto.
+Qed.
+
 (* ================================================================== 2. one segment of safe code *)
 
 Definition is_new (m : msg) : bool := negb (m_ty m =? T_SEQRESET) && negb (m_pd m).
+Definition is_newf (f : frame) : bool := negb (f_ty f =? T_SEQRESET) && negb (f_pd f).
+Definition newf (l : list frame) : list frame := filter is_newf l.
 
-Definition safe_instr (i : instr) : bool :=
+(* a legitimate retransmission frame, given the journal and the live counter: the PossDup copy of a
+   journaled message under that message's number, or a gap fill b -> n over numbers already used *)
+Definition retx_ok (rws : list (Z * frame)) (hi : Z) (g : frame) : Prop :=
+  (exists k f, In (k, f) rws /\ f_pd f = false /\ g = mkF (f_seq f) (f_ty f) true (f_id f) false)
+  \/ (exists b n, g = mkF b T_SEQRESET false n true /\ b < n <= hi).
+
+Definition retx_msg (rws : list (Z * frame)) (hi : Z) (m : msg) : Prop :=
+  (exists k f, In (k, f) rws /\ f_pd f = false /\ m = replay_msg f)
+  \/ (exists b n, m = gapfill_msg b n /\ b < n <= hi).
+
+Definition instr_ok (rws : list (Z * frame)) (hi : Z) (i : instr) : Prop :=
   match i with
-  | ISend m | ISendRest m => is_new m
-  | ITestReq | IStateHook _ _ | IHook | ISetRole _ => true
-  | IResend _ _ _ | IRestore _ | IRaise _ => false
+  | ISend m | ISendRest m => is_new m = true \/ retx_msg rws hi m
+  | IRaise e => e <> EDupSeq
+  | _ => True
   end.
 
-Definition safe_code (c : list instr) : bool := forallb safe_instr c.
+(* code that is safe in world w *)
+Definition cok (w : world) (c : list instr) : Prop := Forall (instr_ok (rows w) (nout w)) c.
+
+(* journal entries are keyed by their own number and lie below the live counter *)
+Definition ent_ok (w : world) : Prop := forall k f, In (k, f) (rows w) -> f_seq f = k /\ k < nout w.
+
+Definition wle (w w' : world) : Prop := nout w <= nout w' /\ incl (rows w) (rows w').
+
+Lemma wle_refl : forall w, wle w w.
+Proof. intros; split; [lia|apply incl_refl]. Qed.
+
+Lemma wle_trans : forall a b c, wle a b -> wle b c -> wle a c.
+Proof. intros a b c [? ?] [? ?]; split; [lia|eapply incl_tran; eauto]. Qed.
+
+Lemma retx_ok_mono : forall r r' hi hi' g, incl r r' -> hi <= hi' -> retx_ok r hi g -> retx_ok r' hi' g.
+Proof.
+  intros r r' hi hi' g Hi Hh [(k&f&?&?&?)|(b&n&?&?)]; [left|right].
+  - exists k, f; auto.
+  - exists b, n; split; auto; lia.
+Qed.
+
+Lemma instr_ok_mono : forall r r' hi hi' i, incl r r' -> hi <= hi' -> instr_ok r hi i -> instr_ok r' hi' i.
+Proof.
+  intros r r' hi hi' i Hi Hh H. destruct i; simpl in *; auto;
+    (destruct H as [|[(k&f&?&?&?)|(b&n&?&?)]]; [left; auto|right; left; exists k, f; auto|
+      right; right; exists b, n; split; auto; lia]).
+Qed.
+
+Lemma cok_mono : forall w w' c, wle w w' -> cok w c -> cok w' c.
+Proof.
+  intros w w' c [Hn Hr] H. unfold cok in *. eapply Forall_impl; [|exact H].
+  intros i Hi. eapply instr_ok_mono; eauto.
+Qed.
 
 Definition clean (out : list outcome) : Prop := ~ In (OExc EDupSeq) out.
 
@@ -110,32 +171,58 @@ Proof. intros; repeat split. Qed.
 Lemma same_seq_trans : forall a b c, same_seq a b -> same_seq b c -> same_seq a c.
 Proof. unfold same_seq; intros a b c (?&?&?&?&?) (?&?&?&?&?); repeat split; congruence. Qed.
 
-(* what the segment did to the sequence state: nothing, or exactly one new frame numbered nout *)
+Lemma same_seq_wle : forall w w', same_seq w w' -> wle w w'.
+Proof. intros w w' (Hn&_&Hr&_). split; [lia|rewrite Hr; apply incl_refl]. Qed.
+
+Lemma same_seq_cok : forall w w' c, same_seq w w' -> cok w c -> cok w' c.
+Proof. intros. eapply cok_mono; eauto using same_seq_wle. Qed.
+
+Lemma same_seq_ent : forall w w', same_seq w w' -> ent_ok w -> ent_ok w'.
+Proof. intros w w' (Hn&_&Hr&_) H k f. rewrite Hr, Hn. apply H. Qed.
+
+(* what the segment did to the sequence state: nothing, exactly one new frame numbered nout, or
+   exactly one retransmission frame (no counter, no journal change) *)
 Inductive exec_post (w : world) (t' : task) (w' : world) : Prop :=
 | EP_quiet : same_seq w w' -> (t_wait t' = WHook \/ t_wait t' = WDone) -> exec_post w t' w'
-| EP_sent : forall f, t_wait t' = WDrain f (tick w) -> f_seq f = nout w -> f_pd f = false -> f_ty f <> T_SEQRESET ->
+| EP_sent : forall f, t_wait t' = WDrain f (tick w) -> f_seq f = nout w -> is_newf f = true ->
     nout w' = nout w + 1 -> rwire w' = f :: rwire w -> tick w' = tick w + 1 -> sout w' = sout w -> rows w' = rows w ->
+    exec_post w t' w'
+| EP_retx : forall g, t_wait t' = WDrain g (tick w) -> nojournal g = true -> is_newf g = false ->
+    retx_ok (rows w) (nout w) g ->
+    nout w' = nout w -> rwire w' = g :: rwire w -> tick w' = tick w + 1 -> sout w' = sout w -> rows w' = rows w ->
     exec_post w t' w'.
 
 Lemma exec_post_same : forall w0 w t' w', same_seq w0 w -> exec_post w t' w' -> exec_post w0 t' w'.
 Proof.
-  intros w0 w t' w' Hs [Hq Hw|f Hw H1 H2 H3 H4 H5 H6 H7 H8].
+  intros w0 w t' w' Hs [Hq Hw|f Hw H1 H2 H4 H5 H6 H7 H8|g Hw H1 H2 H3 H4 H5 H6 H7 H8].
   - apply EP_quiet; auto. eapply same_seq_trans; eauto.
   - destruct Hs as (?&?&?&?&?). eapply EP_sent with (f := f); congruence.
+  - destruct Hs as (Hn&?&Hr&?&?). eapply EP_retx with (g := g); congruence.
+Qed.
+
+Lemma exec_post_wle : forall w t' w', exec_post w t' w' -> wle w w'.
+Proof.
+  intros w t' w' [Hq _|f _ _ _ Hn _ _ _ Hr|g _ _ _ _ Hn _ _ _ Hr].
+  - apply same_seq_wle; auto.
+  - split; [lia|rewrite Hr; apply incl_refl].
+  - split; [lia|rewrite Hr; apply incl_refl].
 Qed.
 
 Definition good (abort : bool) (w : world) (r : res) : Prop :=
-  exists t' w', r = RDone t' w' /\ safe_code (t_code t') = true /\ clean (t_out t') /\
-                t_exc t' <> Some EDupSeq /\ t_abort t' = abort /\ exec_post w t' w'.
+  cok (snd r) (t_code (fst r)) /\ clean (t_out (fst r)) /\ t_exc (fst r) <> Some EDupSeq /\
+  t_abort (fst r) = abort /\ exec_post w (fst r) (snd r).
 
-Definition kgood (abort : bool) (k : list outcome -> world -> res) : Prop :=
-  forall out w, clean out -> good abort w (k out w).
+(* a continuation that is called, synchronously, in a world that differs from w in state/role/TestReqID only *)
+Definition kgood (abort : bool) (w : world) (k : list outcome -> world -> res) : Prop :=
+  forall out w1, same_seq w w1 -> clean out -> good abort w1 (k out w1).
 
 Lemma good_same : forall abort w0 w r, same_seq w0 w -> good abort w r -> good abort w0 r.
 Proof.
-  intros abort w0 w r Hs (t'&w'&?&?&?&?&?&Hp). exists t', w'. repeat split; auto.
-  eapply exec_post_same; eauto.
+  intros abort w0 w r Hs (?&?&?&?&Hp). repeat split; auto. eapply exec_post_same; eauto.
 Qed.
+
+Lemma kgood_same : forall abort w w1 k, same_seq w w1 -> kgood abort w k -> kgood abort w1 k.
+Proof. intros abort w w1 k Hs Hk out w2 Hs2 Hc. apply Hk; auto. eapply same_seq_trans; eauto. Qed.
 
 Lemma clean_cons : forall e out, e <> EDupSeq -> clean out -> clean (OExc e :: out).
 Proof. unfold clean; intros e out He Hc [H|H]; [inversion H; congruence|auto]. Qed.
@@ -143,103 +230,196 @@ Proof. unfold clean; intros e out He Hc [H|H]; [inversion H; congruence|auto]. Q
 Lemma clean_ok : forall out, clean out -> clean (OOk :: out).
 Proof. unfold clean; intros out Hc [H|H]; [discriminate|auto]. Qed.
 
-Lemma good_raise : forall abort e b out w k, e <> EDupSeq -> clean out -> kgood abort k ->
+Lemma good_raise : forall abort e b out w k, e <> EDupSeq -> clean out -> kgood abort w k ->
   good abort w (raise_ abort e b out w k).
 Proof.
   intros abort e b out w k He Hc Hk. unfold raise_. destruct abort.
-  - exists (mkT [] WDone (if b then OExc e :: out else out) (Some e) true), w.
-    repeat split; simpl; auto.
+  - repeat split; simpl; auto.
+    + constructor.
     + destruct b; auto using clean_cons.
     + congruence.
     + apply EP_quiet; [apply same_seq_refl|auto].
-  - apply Hk. apply clean_cons; auto.
+  - apply Hk; [apply same_seq_refl|]. apply clean_cons; auto.
 Qed.
 
-Lemma good_send_tail : forall abort m rest out w k, is_new m = true -> safe_code rest = true -> clean out ->
-  kgood abort k -> good abort w (send_tail abort m rest out w k).
+Lemma good_send_tail : forall abort m rest out w k,
+  (is_new m = true \/ retx_msg (rows w) (nout w) m) -> cok w rest -> clean out -> kgood abort w k ->
+  good abort w (send_tail abort m rest out w k).
 Proof.
-  intros abort m rest out w k Hn Hs Hc Hk. unfold send_tail.
+  intros abort m rest out w k Hm Hs Hc Hk. unfold send_tail.
   destruct ((m_ty m =? T_TESTREQ) && negb (treq w)).
-  - apply good_raise; auto; discriminate.
+  { apply good_raise; auto; discriminate. }
+  destruct Hm as [Hn|[(kk&f&Hin&Hpd&->)|(b&n&->&Hbn)]].
   - unfold is_new in Hn. apply andb_true_iff in Hn. destruct Hn as [Hty Hpd].
     apply negb_true_iff in Hty, Hpd. unfold number. rewrite Hty, Hpd.
-    eexists _, _. split; [reflexivity|]. simpl. repeat split; auto; try discriminate.
-    eapply EP_sent; simpl; try reflexivity.
-    apply Z.eqb_neq; auto.
+    repeat split; simpl; auto; try discriminate.
+    + eapply cok_mono; [|exact Hs]. split; simpl; [lia|apply incl_refl].
+    + eapply EP_sent; simpl; try reflexivity. unfold is_newf. simpl. rewrite Hty. reflexivity.
+  - assert (Hnum : number (replay_msg f) w = inr (f_seq f, w)).
+    { unfold number, replay_msg. simpl. destruct (f_ty f =? T_SEQRESET); reflexivity. }
+    rewrite Hnum. repeat split; simpl; auto; try discriminate.
+    eapply EP_retx; simpl; try reflexivity.
+    + unfold is_newf. simpl. apply andb_false_r.
+    + left. exists kk, f. auto.
+  - assert (Hnum : number (gapfill_msg b n) w = inr (b, w)) by reflexivity.
+    rewrite Hnum. repeat split; simpl; auto; try discriminate.
+    eapply EP_retx; simpl; try reflexivity.
+    right. exists b, n. auto.
 Qed.
 
-Lemma good_send_head : forall abort m rest out w k, is_new m = true -> safe_code rest = true -> clean out ->
-  kgood abort k -> good abort w (send_head abort m rest out w k).
+Lemma good_send_head : forall abort m rest out w k,
+  (is_new m = true \/ retx_msg (rows w) (nout w) m) -> cok w rest -> clean out -> kgood abort w k ->
+  good abort w (send_head abort m rest out w k).
 Proof.
-  intros abort m rest out w k Hn Hs Hc Hk. unfold send_head. destruct (gate m w) as [e| |] eqn:Eg.
+  intros abort m rest out w k Hm Hs Hc Hk. unfold send_head. destruct (gate m w) as [e| |] eqn:Eg.
   - assert (e = EConn) as ->.
     { unfold gate in Eg. repeat match type of Eg with (if ?c then _ else _) = _ => destruct c end; congruence. }
     apply good_raise; auto; discriminate.
-  - eexists _, _. split; [reflexivity|]. simpl. rewrite Hn, Hs. repeat split; auto; try discriminate.
-    apply EP_quiet; [repeat split|auto].
+  - repeat split; simpl; auto; try discriminate.
+    + constructor; [exact Hm|exact Hs].
+    + apply EP_quiet; [repeat split|auto].
   - apply good_send_tail; auto.
 Qed.
 
-Lemma exec_safe : forall abort code, safe_code code = true -> kgood abort (exec abort code).
+Lemma execf_safe : forall abort code tail k out w, cok w code -> cok w tail -> clean out -> kgood abort w k ->
+  good abort w (execf abort code tail k out w).
 Proof.
-  intros abort code. induction code as [|i rest IH]; intros Hs out w Hc.
-  - eexists _, _. split; [reflexivity|]. simpl. repeat split; auto; try discriminate.
-    apply EP_quiet; [apply same_seq_refl|auto].
-  - simpl in Hs. apply andb_true_iff in Hs. destruct Hs as [Hi Hs]. specialize (IH Hs).
-    destruct i; simpl in Hi; try discriminate; cbn [exec].
+  intros abort code. induction code as [|i rest IH]; intros tail k out w Hcode Htail Hc Hk.
+  - simpl. apply Hk; auto using same_seq_refl.
+  - inversion Hcode as [|? ? Hi Hrest]; subst.
+    assert (Hafter : cok w (rest ++ tail)) by (apply Forall_app; auto).
+    assert (Hk' : kgood abort w (execf abort rest tail k)).
+    { intros out1 w1 Hs1 Hc1. apply IH; eauto using same_seq_cok, kgood_same. }
+    destruct i; cbn [execf]; simpl in Hi.
     + apply good_send_head; auto.
-    + apply good_same with (w := set_role R_INITIATOR w); [repeat split|].
-      apply good_send_tail; auto.
+    + assert (Hs : same_seq w (set_role R_INITIATOR w)) by (repeat split).
+      apply good_same with (w := set_role R_INITIATOR w); auto.
+      apply good_send_tail; eauto using same_seq_cok, kgood_same.
     + destruct (treq w).
       * apply good_raise; auto; discriminate.
-      * apply good_same with (w := set_treq true w); [repeat split|].
-        apply good_send_head; auto.
+      * assert (Hs : same_seq w (set_treq true w)) by (repeat split).
+        apply good_same with (w := set_treq true w); auto.
+        apply good_send_head; eauto using same_seq_cok, kgood_same.
     + destruct (unless_awaiting && (st w =? S_AWAITING)).
-      * apply IH; auto.
-      * eexists _, _. split; [reflexivity|]. simpl. repeat split; auto; try discriminate.
+      * apply Hk'; auto using same_seq_refl.
+      * repeat split; simpl; auto; try discriminate.
         apply EP_quiet; [repeat split|auto].
-    + eexists _, _. split; [reflexivity|]. simpl. repeat split; auto; try discriminate.
+    + repeat split; simpl; auto; try discriminate.
       apply EP_quiet; [apply same_seq_refl|auto].
-    + apply good_same with (w := set_role r w); [repeat split|]. apply IH; auto.
+    + apply good_same with (w := set_role r w); [repeat split|].
+      apply Hk'; [repeat split|auto].
+    + apply Hk'; auto using same_seq_refl.
+    + apply good_raise; auto.
 Qed.
 
-Lemma drive_done : forall fuel abort t w, drive fuel abort (RDone t w) = (t, w).
-Proof. destruct fuel; reflexivity. Qed.
-
-Definition task_ok (t : task) : Prop :=
-  safe_code (t_code t) = true /\ clean (t_out t) /\ t_exc t <> Some EDupSeq.
-
-Lemma resume_idle : forall t w, (t_wait t = WStart \/ t_wait t = WHook) -> task_ok t ->
-  exists t' w', resume t w = (t', w') /\ task_ok t' /\ exec_post w t' w'.
+Lemma replay_code_ok : forall rws hi rs d gfb gfe saved,
+  (forall k f, In (k, f) rs -> In (k, f) rws /\ f_seq f = k /\ k < hi) -> saved <= hi -> (gfe <= hi \/ rs = []) ->
+  Forall (instr_ok rws hi) (replay_code rs d gfb gfe saved).
 Proof.
-  intros t w Hw (Hs & Hc & _).
-  destruct (exec_safe (t_abort t) (t_code t) Hs (t_out t) w Hc) as (t'&w'&He&?&?&?&?&?).
+  intros rws hi rs. induction rs as [|[k f] rs IH]; intros d gfb gfe saved Hrs Hsv Hg; cbn [replay_code].
+  - destruct (saved <? gfe); [repeat constructor; discriminate|].
+    apply Forall_app. split; [|repeat constructor].
+    destruct (gfb <? saved) eqn:E; [|constructor]. apply Z.ltb_lt in E.
+    constructor; [|constructor]. simpl. right; right. exists gfb, saved. split; auto; lia.
+  - destruct (Hrs k f (or_introl eq_refl)) as (Hin & Hseq & Hlt).
+    assert (Hrs' : forall k0 f0, In (k0, f0) rs -> In (k0, f0) rws /\ f_seq f0 = k0 /\ k0 < hi)
+      by (intros; apply Hrs; right; auto).
+    assert (Hge : gfe <= hi) by (destruct Hg as [|Hg]; [auto|discriminate]).
+    destruct (is_sess (f_ty f)).
+    + apply IH; auto. left; lia.
+    + constructor; [exact I|]. destruct (mem_z (f_seq f) d).
+      * apply IH; auto. left; lia.
+      * apply Forall_app. split.
+        { destruct (gfb <? gfe) eqn:E; [|constructor]. apply Z.ltb_lt in E.
+          constructor; [|constructor]. simpl. right; right. exists gfb, gfe. split; auto; lia. }
+        apply Forall_app. split.
+        { destruct (f_pd f) eqn:Epd.
+          - constructor; [simpl; discriminate|constructor].
+          - constructor; [|constructor]. simpl. right; left. exists k, f. auto. }
+        apply IH; auto.
+Qed.
+
+Lemma resend_code_ok : forall b e d w, ent_ok w -> cok w (resend_code b e d w).
+Proof.
+  intros b0 e d w He. unfold cok, resend_code. cbv zeta. generalize (Z.max b0 1). intros b. apply replay_code_ok.
+  - intros k f Hin. unfold recover in Hin. apply filter_In in Hin. destruct Hin as [Hin _].
+    destruct (He _ _ Hin). auto.
+  - lia.
+  - destruct (Z_le_gt_dec b (nout w)) as [|Hgt]; [left; auto|right].
+    unfold recover. destruct (filter _ (rows w)) as [|[k f] l] eqn:E; auto.
+    assert (Hin : In (k, f) (filter (fun r => (b <=? fst r) && (fst r <=? (if e =? 0 then MAXSIZE else e))) (rows w)))
+      by (rewrite E; left; auto).
+    apply filter_In in Hin. destruct Hin as [Hin Hc]. destruct (He _ _ Hin) as [_ Hlt].
+    apply andb_true_iff in Hc. destruct Hc as [Hc _]. apply Z.leb_le in Hc. simpl in Hc. lia.
+Qed.
+
+Lemma exec_safe : forall abort code out w, ent_ok w -> cok w code -> clean out ->
+  good abort w (exec abort code out w).
+Proof.
+  intros abort code. induction code as [|i rest IH]; intros out w He Hcode Hc.
+  - simpl. unfold finish. repeat split; simpl; auto; try discriminate; try apply Forall_nil.
+    apply EP_quiet; [apply same_seq_refl|auto].
+  - inversion Hcode as [|? ? Hi Hrest]; subst.
+    assert (Hk : kgood abort w (exec abort rest)).
+    { intros out1 w1 Hs1 Hc1. apply IH; eauto using same_seq_cok, same_seq_ent. }
+    destruct i; cbn [exec];
+      try (apply execf_safe; auto; constructor; [exact Hi|constructor]).
+    apply execf_safe; auto. apply resend_code_ok; auto.
+Qed.
+
+Definition task_ok (w : world) (t : task) : Prop :=
+  cok w (t_code t) /\ clean (t_out t) /\ t_exc t <> Some EDupSeq.
+
+Lemma task_ok_mono : forall w w' t, wle w w' -> task_ok w t -> task_ok w' t.
+Proof. intros w w' t Hw (?&?&?). repeat split; auto. eapply cok_mono; eauto. Qed.
+
+Lemma resume_idle : forall t w, (t_wait t = WStart \/ t_wait t = WHook) -> ent_ok w -> task_ok w t ->
+  exists t' w', resume t w = (t', w') /\ task_ok w' t' /\ exec_post w t' w'.
+Proof.
+  intros t w Hw He (Hs & Hc & _).
+  destruct (exec_safe (t_abort t) (t_code t) (t_out t) w He Hs Hc) as (?&?&?&?&?).
+  destruct (exec (t_abort t) (t_code t) (t_out t) w) as [t' w'] eqn:E. simpl in *.
   exists t', w'. split; [|split; [repeat split|]; auto].
-  unfold resume. destruct Hw as [-> | ->]; rewrite He; apply drive_done.
+  unfold resume. destruct Hw as [-> | ->]; auto.
+Qed.
+
+Lemma resume_retx : forall t w g tk, t_wait t = WDrain g tk -> nojournal g = true -> ent_ok w -> task_ok w t ->
+  exists t' w', resume t w = (t', w') /\ task_ok w' t' /\ exec_post w t' w'.
+Proof.
+  intros t w g tk Hw Hn He (Hs & Hc & _).
+  destruct (exec_safe (t_abort t) (t_code t) (OOk :: t_out t) w He Hs (clean_ok _ Hc)) as (?&?&?&?&?).
+  destruct (exec (t_abort t) (t_code t) (OOk :: t_out t) w) as [t' w'] eqn:E. simpl in *.
+  exists t', w'. split; [|split; [repeat split|]; auto].
+  unfold resume. rewrite Hw, Hn. auto.
 Qed.
 
 (* world after Journaler.persist_msg stored frame f *)
 Definition persisted (f : frame) (w : world) : world :=
   mkW (nout w) (f_seq f) (insert_row (f_seq f) f (rows w)) (rwire w) (st w) (role w) (treq w) (tick w).
 
-Lemma resume_drain : forall t w f tk, t_wait t = WDrain f tk -> row_at (f_seq f) (rows w) = None -> task_ok t ->
-  exists t' w', resume t w = (t', w') /\ task_ok t' /\ exec_post (persisted f w) t' w'.
+Lemma persisted_wle : forall f w, wle w (persisted f w).
+Proof. intros f w. split; simpl; [lia|]. intros [k g] H. apply in_insert. auto. Qed.
+
+Lemma resume_drain : forall t w f tk, t_wait t = WDrain f tk -> nojournal f = false ->
+  row_at (f_seq f) (rows w) = None -> ent_ok (persisted f w) -> task_ok w t ->
+  exists t' w', resume t w = (t', w') /\ task_ok w' t' /\ exec_post (persisted f w) t' w'.
 Proof.
-  intros t w f tk Hw Hr (Hs & Hc & _).
-  destruct (exec_safe (t_abort t) (t_code t) Hs (OOk :: t_out t) (persisted f w) (clean_ok _ Hc))
-    as (t'&w'&He&?&?&?&?&?).
+  intros t w f tk Hw Hn Hr He (Hs & Hc & _).
+  assert (Hs' : cok (persisted f w) (t_code t)) by (eapply cok_mono; eauto using persisted_wle).
+  destruct (exec_safe (t_abort t) (t_code t) (OOk :: t_out t) (persisted f w) He Hs' (clean_ok _ Hc)) as (?&?&?&?&?).
+  destruct (exec (t_abort t) (t_code t) (OOk :: t_out t) (persisted f w)) as [t' w'] eqn:E. simpl in *.
   exists t', w'. split; [|split; [repeat split|]; auto].
-  unfold resume, persist. rewrite Hw, Hr. fold (persisted f w). rewrite He. apply drive_done.
+  unfold resume, persist. rewrite Hw, Hn, Hr. fold (persisted f w). auto.
 Qed.
 
 (* ================================================================== 3. invariants *)
 
 Definition pmap := nat -> option (frame * Z).
 
+(* the frame (and drain ticket) a task still has to journal *)
 Definition pw (t : task) : option (frame * Z) :=
-  match t_wait t with WDrain f tk => Some (f, tk) | _ => None end.
+  match t_wait t with WDrain f tk => if nojournal f then None else Some (f, tk) | _ => None end.
 
-(* the frame (and drain ticket) task j still has to journal *)
 Definition pend (ts : list task) : pmap :=
   fun j => match nth_error ts j with Some t => pw t | None => None end.
 
@@ -254,19 +434,27 @@ Proof.
   - rewrite nth_upd_neq by assumption. reflexivity.
 Qed.
 
+Lemma newf_nojournal : forall f, is_newf f = true -> nojournal f = false.
+Proof.
+  intros f H. unfold is_newf in H. apply andb_true_iff in H. destruct H as [H1 H2].
+  apply negb_true_iff in H1, H2. unfold nojournal. rewrite H1, H2. reflexivity.
+Qed.
+
 Record Inv (n0 : Z) (rows0 : list (Z * frame)) (w : world) (P : pmap) : Prop := mkInv {
-  i_consec : consec (rwire w) (nout w);
-  i_len : nout w = n0 + Z.of_nat (length (rwire w));
-  i_new : Forall (fun f => f_pd f = false /\ f_ty f <> T_SEQRESET) (rwire w);
+  i_consec : consec (newf (rwire w)) (nout w);
+  i_len : nout w = n0 + Z.of_nat (length (newf (rwire w)));
+  i_retx : Forall (fun g => is_newf g = true \/ retx_ok (rows w) (nout w) g) (rwire w);
+  i_ent : ent_ok w;
   i_low : forall k, k < n0 -> row_at k (rows w) = row_at k rows0;
-  i_rows : forall k f, n0 <= k -> row_at k (rows w) = Some f -> In f (rwire w) /\ f_seq f = k;
-  i_cover : forall f, In f (rwire w) -> row_at (f_seq f) (rows w) = Some f \/ exists j tk, P j = Some (f, tk);
-  i_pend : forall j f tk, P j = Some (f, tk) -> In f (rwire w) /\ row_at (f_seq f) (rows w) = None /\ tk < tick w;
+  i_rows : forall k f, n0 <= k -> row_at k (rows w) = Some f -> In f (newf (rwire w)) /\ f_seq f = k;
+  i_cover : forall f, In f (newf (rwire w)) -> row_at (f_seq f) (rows w) = Some f \/ exists j tk, P j = Some (f, tk);
+  i_pend : forall j f tk, P j = Some (f, tk) ->
+           In f (newf (rwire w)) /\ row_at (f_seq f) (rows w) = None /\ tk < tick w;
   i_dist : forall j j' f f' tk tk', P j = Some (f, tk) -> P j' = Some (f', tk') -> j <> j' ->
            f_seq f <> f_seq f' /\ tk <> tk'
 }.
 
-Lemma inv_range : forall n0 r0 w P f, Inv n0 r0 w P -> In f (rwire w) -> n0 <= f_seq f < nout w.
+Lemma inv_range : forall n0 r0 w P f, Inv n0 r0 w P -> In f (newf (rwire w)) -> n0 <= f_seq f < nout w.
 Proof.
   intros n0 r0 w P f HI Hin. pose proof (consec_in _ _ _ (i_consec _ _ _ _ HI) Hin).
   pose proof (i_len _ _ _ _ HI). lia.
@@ -274,8 +462,9 @@ Qed.
 
 Lemma inv_ext : forall n0 r0 w w' P P', Inv n0 r0 w P -> same_seq w w' -> (forall j, P' j = P j) -> Inv n0 r0 w' P'.
 Proof.
-  intros n0 r0 w w' P P' HI (Hn&_&Hr&Hw&Ht) HP. destruct HI.
+  intros n0 r0 w w' P P' HI Hs HP. pose proof Hs as (Hn&_&Hr&Hw&Ht). destruct HI.
   constructor; rewrite ?Hn, ?Hr, ?Hw, ?Ht; auto.
+  - eapply same_seq_ent; eauto.
   - intros f Hf. destruct (i_cover0 f Hf) as [|(j&tk&Hj)]; auto. right. exists j, tk. rewrite HP; auto.
   - intros j f tk Hj. rewrite HP in Hj. eauto.
   - intros j j' f f' tk tk' Hj Hj'. rewrite HP in Hj, Hj'. eauto.
@@ -290,7 +479,11 @@ Proof.
   constructor; simpl.
   - apply (i_consec _ _ _ _ HI).
   - apply (i_len _ _ _ _ HI).
-  - apply (i_new _ _ _ _ HI).
+  - eapply Forall_impl; [|apply (i_retx _ _ _ _ HI)]. intros g [|Hg]; auto. right.
+    eapply retx_ok_mono; [| |exact Hg]; [|lia]. intros [k h] H. apply in_insert. auto.
+  - intros k g Hg. simpl in Hg. apply in_insert in Hg. destruct Hg as [Hg|Hg].
+    + inversion Hg; subst. simpl. split; auto; lia.
+    + apply (i_ent _ _ _ _ HI); auto.
   - intros k Hk. rewrite row_at_insert by assumption.
     destruct (k =? f_seq f) eqn:E; [apply Z.eqb_eq in E; lia|]. apply (i_low _ _ _ _ HI); auto.
   - intros k g Hk Hg. rewrite row_at_insert in Hg by assumption.
@@ -315,20 +508,24 @@ Proof.
 Qed.
 
 Lemma inv_sent : forall n0 r0 w w' P i f, Inv n0 r0 w P -> P i = None ->
-  f_seq f = nout w -> f_pd f = false -> f_ty f <> T_SEQRESET ->
+  f_seq f = nout w -> is_newf f = true ->
   nout w' = nout w + 1 -> rwire w' = f :: rwire w -> tick w' = tick w + 1 -> rows w' = rows w ->
   Inv n0 r0 w' (Pupd P i (Some (f, tick w))).
 Proof.
-  intros n0 r0 w w' P i f HI Hi Hseq Hpd Hty Hn Hw Ht Hr.
+  intros n0 r0 w w' P i f HI Hi Hseq Hnew Hn Hw Ht Hr.
   assert (Hfree : row_at (nout w) (rows w) = None).
   { destruct (row_at (nout w) (rows w)) as [g|] eqn:E; auto.
     pose proof (i_len _ _ _ _ HI).
     destruct (i_rows _ _ _ _ HI (nout w) g ltac:(lia) E) as [Hin Hs].
     pose proof (inv_range _ _ _ _ _ HI Hin). lia. }
-  constructor; rewrite ?Hn, ?Hw, ?Ht, ?Hr.
+  assert (Hnf : newf (rwire w') = f :: newf (rwire w)) by (rewrite Hw; unfold newf; simpl; rewrite Hnew; auto).
+  constructor; rewrite ?Hnf, ?Hn, ?Ht, ?Hr.
   - simpl. split; [lia|]. replace (nout w + 1 - 1) with (nout w) by lia. apply (i_consec _ _ _ _ HI).
   - simpl length. rewrite Nat2Z.inj_succ. pose proof (i_len _ _ _ _ HI). lia.
-  - constructor; auto. apply (i_new _ _ _ _ HI).
+  - rewrite Hw. constructor; auto.
+    eapply Forall_impl; [|apply (i_retx _ _ _ _ HI)]. intros g [|Hg]; auto. right.
+    eapply retx_ok_mono; [apply incl_refl| |exact Hg]. lia.
+  - intros k g Hg. rewrite Hr, Hn in *. destruct (i_ent _ _ _ _ HI k g Hg). split; auto; lia.
   - apply (i_low _ _ _ _ HI).
   - intros k g Hk Hg. destruct (i_rows _ _ _ _ HI k g Hk Hg). split; auto. right; auto.
   - intros g [<-|Hg].
@@ -348,13 +545,31 @@ Proof.
     + eapply (i_dist _ _ _ _ HI); eauto.
 Qed.
 
+Lemma inv_retx : forall n0 r0 w w' P P' g, Inv n0 r0 w P -> (forall j, P' j = P j) ->
+  is_newf g = false -> retx_ok (rows w) (nout w) g ->
+  nout w' = nout w -> rwire w' = g :: rwire w -> tick w' = tick w + 1 -> rows w' = rows w ->
+  Inv n0 r0 w' P'.
+Proof.
+  intros n0 r0 w w' P P' g HI HP Hnew Hg Hn Hw Ht Hr.
+  assert (Hnf : newf (rwire w') = newf (rwire w)) by (rewrite Hw; unfold newf; simpl; rewrite Hnew; auto).
+  destruct HI.
+  constructor; rewrite ?Hnf, ?Hn, ?Hr; auto.
+  - rewrite Hw. constructor; auto.
+  - intros k f Hf. rewrite Hr in Hf. rewrite Hn. auto.
+  - intros f Hf. destruct (i_cover0 f Hf) as [|(j&tk&Hj)]; auto. right. exists j, tk. rewrite HP; auto.
+  - intros j f tk Hj. rewrite HP in Hj. destruct (i_pend0 _ _ _ Hj) as (?&?&?). repeat split; auto. lia.
+  - intros j j' f f' tk tk' Hj Hj'. rewrite HP in Hj, Hj'. eauto.
+Qed.
+
 Lemma inv_after_exec : forall n0 r0 w w' P i t', Inv n0 r0 w P -> P i = None -> exec_post w t' w' ->
   Inv n0 r0 w' (Pupd P i (pw t')).
 Proof.
-  intros n0 r0 w w' P i t' HI Hi [Hs Hw|f Hw H1 H2 H3 H4 H5 H6 H7 H8].
+  intros n0 r0 w w' P i t' HI Hi [Hs Hw|f Hw H1 H2 H4 H5 H6 H7 H8|g Hw H1 H2 H3 H4 H5 H6 H7 H8].
   - eapply inv_ext; eauto. intros j. unfold Pupd, pw.
     destruct (Nat.eqb_spec j i) as [->|]; auto. destruct Hw as [-> | ->]; auto.
-  - unfold pw. rewrite Hw. eapply inv_sent; eauto.
+  - unfold pw. rewrite Hw, (newf_nojournal _ H2). eapply inv_sent; eauto.
+  - eapply inv_retx; eauto. intros j. unfold Pupd, pw. rewrite Hw, H1.
+    destruct (Nat.eqb_spec j i) as [->|]; auto.
 Qed.
 
 (* the part that needs FIFO wake-up: the stored counter trails the live one by the drain queue *)
@@ -365,9 +580,9 @@ Record InvF (w : world) (P : pmap) : Prop := mkInvF {
   f_order : forall j j' f f' tk tk', P j = Some (f, tk) -> P j' = Some (f', tk') -> tk < tk' -> f_seq f < f_seq f'
 }.
 
-Lemma invF_ext : forall w w' P P', InvF w P -> same_seq w w' -> (forall j, P' j = P j) -> InvF w' P'.
+Lemma invF_ext : forall w w' P P', InvF w P -> nout w' = nout w -> sout w' = sout w -> (forall j, P' j = P j) -> InvF w' P'.
 Proof.
-  intros w w' P P' HF (Hn&Hs&_) HP. destruct HF.
+  intros w w' P P' HF Hn Hs HP. destruct HF.
   constructor; rewrite ?Hn, ?Hs; auto.
   - intros n Hn'. destruct (f_cover0 n Hn') as (j&f&tk&?&?). exists j, f, tk. rewrite HP. auto.
   - intros j f tk Hj. rewrite HP in Hj. eauto.
@@ -399,10 +614,10 @@ Qed.
 Lemma invF_after_exec : forall n0 r0 w w' P i t', Inv n0 r0 w P -> InvF w P -> P i = None -> exec_post w t' w' ->
   InvF w' (Pupd P i (pw t')).
 Proof.
-  intros n0 r0 w w' P i t' HI HF Hi [Hs Hw|f Hw H1 H2 H3 H4 H5 H6 H7 H8].
-  - eapply invF_ext; eauto. intros j. unfold Pupd, pw.
+  intros n0 r0 w w' P i t' HI HF Hi [Hs Hw|f Hw H1 H2 H4 H5 H6 H7 H8|g Hw H1 H2 H3 H4 H5 H6 H7 H8].
+  - destruct Hs as (?&?&_). eapply invF_ext; eauto. intros j. unfold Pupd, pw.
     destruct (Nat.eqb_spec j i) as [->|]; auto. destruct Hw as [-> | ->]; auto.
-  - unfold pw. rewrite Hw. pose proof (f_lt _ _ HF).
+  - unfold pw. rewrite Hw, (newf_nojournal _ H2). pose proof (f_lt _ _ HF).
     constructor; rewrite ?H4, ?H7.
     + lia.
     + intros n Hn. destruct (Z.eq_dec n (nout w)) as [->|Hne].
@@ -419,44 +634,53 @@ Proof.
       * inversion Hj'; subst. destruct (i_pend _ _ _ _ HI _ _ _ Hj) as (Hin&_&_).
         pose proof (inv_range _ _ _ _ _ HI Hin). lia.
       * eapply (f_order _ _ HF); eauto.
+  - eapply invF_ext; eauto. intros j. unfold Pupd, pw. rewrite Hw, H1.
+    destruct (Nat.eqb_spec j i) as [->|]; auto.
 Qed.
 
 (* ---------------------------------------------------------------- configurations *)
 
 Definition CInv (n0 : Z) (r0 : list (Z * frame)) (c : config) : Prop :=
-  Inv n0 r0 (c_w c) (pend (c_ts c)) /\ (forall j t, nth_error (c_ts c) j = Some t -> task_ok t).
+  Inv n0 r0 (c_w c) (pend (c_ts c)) /\ (forall j t, nth_error (c_ts c) j = Some t -> task_ok (c_w c) t).
 
 Lemma pupd_twice : forall P i v v' j, Pupd (Pupd P i v) i v' j = Pupd P i v' j.
 Proof. intros. unfold Pupd. destruct (Nat.eqb j i); auto. Qed.
 
-Lemma tasks_ok_upd : forall ts i t', (forall j t, nth_error ts j = Some t -> task_ok t) -> task_ok t' ->
-  forall j t, nth_error (upd i t' ts) j = Some t -> task_ok t.
+Lemma tasks_ok_upd : forall w w' ts i t', wle w w' ->
+  (forall j t, nth_error ts j = Some t -> task_ok w t) -> task_ok w' t' ->
+  forall j t, nth_error (upd i t' ts) j = Some t -> task_ok w' t.
 Proof.
-  intros ts i t' Hall Ht' j t Hj. destruct (Nat.eq_dec j i) as [->|Hn].
+  intros w w' ts i t' Hle Hall Ht' j t Hj. destruct (Nat.eq_dec j i) as [->|Hn].
   - destruct (nth_error ts i) as [t0|] eqn:E.
     + rewrite (nth_upd_eq _ _ _ _ E) in Hj. inversion Hj; subst; auto.
     + assert (nth_error (upd i t' ts) i = None).
       { clear -E. revert i E. induction ts as [|a ts IH]; intros [|i] E; simpl in *; auto; discriminate. }
       congruence.
-  - rewrite nth_upd_neq in Hj by assumption. eauto.
+  - rewrite nth_upd_neq in Hj by assumption. eapply task_ok_mono; eauto.
 Qed.
 
-(* one scheduler step, any choice *)
+(* one scheduler step, any choice: w1 is the world after the journal write of the resumed task, if any *)
 Lemma step_shape : forall n0 r0 c i t, CInv n0 r0 c -> nth_error (c_ts c) i = Some t ->
   t_wait t = WDone \/
-  (exists t' w', (t_wait t = WStart \/ t_wait t = WHook) /\ resume t (c_w c) = (t', w') /\ task_ok t' /\
-                 exec_post (c_w c) t' w') \/
-  (exists f tk t' w', t_wait t = WDrain f tk /\ resume t (c_w c) = (t', w') /\ task_ok t' /\
+  (exists t' w', pw t = None /\ resume t (c_w c) = (t', w') /\ task_ok w' t' /\ exec_post (c_w c) t' w') \/
+  (exists f tk t' w', pw t = Some (f, tk) /\ t_wait t = WDrain f tk /\ resume t (c_w c) = (t', w') /\ task_ok w' t' /\
                       exec_post (persisted f (c_w c)) t' w').
 Proof.
-  intros n0 r0 c i t [HI Hok] Hi. specialize (Hok _ _ Hi).
+  intros n0 r0 c i t [HI Hok] Hi. specialize (Hok _ _ Hi). pose proof (i_ent _ _ _ _ HI) as He.
   destruct (t_wait t) as [| |f tk|] eqn:Hw.
-  - right; left. destruct (resume_idle t (c_w c) (or_introl Hw) Hok) as (t'&w'&?&?&?). exists t', w'. auto.
-  - right; left. destruct (resume_idle t (c_w c) (or_intror Hw) Hok) as (t'&w'&?&?&?). exists t', w'. auto.
-  - right; right.
-    assert (Hp : pend (c_ts c) i = Some (f, tk)) by (unfold pend, pw; rewrite Hi, Hw; auto).
-    destruct (i_pend _ _ _ _ HI _ _ _ Hp) as (_&Hnone&_).
-    destruct (resume_drain t (c_w c) f tk Hw Hnone Hok) as (t'&w'&?&?&?). exists f, tk, t', w'. auto.
+  - right; left. destruct (resume_idle t (c_w c) (or_introl Hw) He Hok) as (t'&w'&?&?&?).
+    exists t', w'. unfold pw. rewrite Hw. auto.
+  - right; left. destruct (resume_idle t (c_w c) (or_intror Hw) He Hok) as (t'&w'&?&?&?).
+    exists t', w'. unfold pw. rewrite Hw. auto.
+  - destruct (nojournal f) eqn:Hn.
+    + right; left. destruct (resume_retx t (c_w c) f tk Hw Hn He Hok) as (t'&w'&?&?&?).
+      exists t', w'. unfold pw. rewrite Hw, Hn. auto.
+    + right; right.
+      assert (Hp : pend (c_ts c) i = Some (f, tk)) by (unfold pend, pw; rewrite Hi, Hw, Hn; auto).
+      destruct (i_pend _ _ _ _ HI _ _ _ Hp) as (_&Hnone&_).
+      pose proof (i_ent _ _ _ _ (inv_persist _ _ _ _ _ _ _ HI Hp)) as He1.
+      destruct (resume_drain t (c_w c) f tk Hw Hn Hnone He1 Hok) as (t'&w'&?&?&?).
+      exists f, tk, t', w'. unfold pw. rewrite Hw, Hn. auto.
   - left; auto.
 Qed.
 
@@ -472,21 +696,21 @@ Lemma step_inv : forall n0 r0 c i, CInv n0 r0 c -> CInv n0 r0 (sched_step c i).
 Proof.
   intros n0 r0 c i HC. destruct (nth_error (c_ts c) i) as [t|] eqn:Hi.
   2:{ unfold sched_step. rewrite Hi. auto. }
-  destruct (step_shape _ _ _ _ _ HC Hi) as [Hd|[(t'&w'&Hw&Hr&Hok&Hp)|(f&tk&t'&w'&Hw&Hr&Hok&Hp)]].
+  destruct (step_shape _ _ _ _ _ HC Hi) as [Hd|[(t'&w'&Hw&Hr&Hok&Hp)|(f&tk&t'&w'&Hw&Hwt&Hr&Hok&Hp)]].
   - rewrite (sched_step_done _ _ _ Hi Hd). auto.
   - destruct HC as [HI Hall]. unfold sched_step. rewrite Hi, Hr. split; simpl.
-    + assert (Hnone : pend (c_ts c) i = None) by (unfold pend, pw; rewrite Hi; destruct Hw as [-> | ->]; auto).
+    + assert (Hnone : pend (c_ts c) i = None) by (unfold pend; rewrite Hi; auto).
       eapply inv_ext; [eapply inv_after_exec; eauto | apply same_seq_refl |].
       intros j. eapply pend_upd; eauto.
-    + apply tasks_ok_upd; auto.
+    + eapply tasks_ok_upd; eauto using exec_post_wle.
   - destruct HC as [HI Hall]. unfold sched_step. rewrite Hi, Hr. split; simpl.
-    + assert (Hp' : pend (c_ts c) i = Some (f, tk)) by (unfold pend, pw; rewrite Hi, Hw; auto).
+    + assert (Hp' : pend (c_ts c) i = Some (f, tk)) by (unfold pend; rewrite Hi; auto).
       pose proof (inv_persist _ _ _ _ _ _ _ HI Hp') as HI1.
       assert (Hn1 : Pupd (pend (c_ts c)) i None i = None) by (unfold Pupd; rewrite Nat.eqb_refl; auto).
       pose proof (inv_after_exec _ _ _ _ _ _ _ HI1 Hn1 Hp) as HI2.
       eapply inv_ext; [exact HI2 | apply same_seq_refl |].
       intros j. rewrite pupd_twice. eapply pend_upd; eauto.
-    + apply tasks_ok_upd; auto.
+    + eapply tasks_ok_upd; eauto. eapply wle_trans; [apply persisted_wle|eapply exec_post_wle; eauto].
 Qed.
 
 Lemma fifo_ok_spec : forall c i t f tk, nth_error (c_ts c) i = Some t -> t_wait t = WDrain f tk ->
@@ -496,7 +720,8 @@ Proof.
   rewrite forallb_forall in Hf. unfold pend in Hj.
   destruct (nth_error (c_ts c) j) as [t2|] eqn:E; [|discriminate].
   specialize (Hf _ (nth_error_In _ _ E)). unfold ticket_le in Hf. unfold pw in Hj.
-  destruct (t_wait t2); try discriminate. inversion Hj; subst. apply Z.leb_le; auto.
+  destruct (t_wait t2) as [| |g tk2|]; try discriminate. destruct (nojournal g); [discriminate|].
+  inversion Hj; subst. apply Z.leb_le; auto.
 Qed.
 
 Lemma step_invF : forall n0 r0 c i, CInv n0 r0 c -> InvF (c_w c) (pend (c_ts c)) -> fifo_ok c i = true ->
@@ -504,19 +729,19 @@ Lemma step_invF : forall n0 r0 c i, CInv n0 r0 c -> InvF (c_w c) (pend (c_ts c))
 Proof.
   intros n0 r0 c i HC HF Hfifo. destruct (nth_error (c_ts c) i) as [t|] eqn:Hi.
   2:{ unfold sched_step. rewrite Hi. auto. }
-  destruct (step_shape _ _ _ _ _ HC Hi) as [Hd|[(t'&w'&Hw&Hr&Hok&Hp)|(f&tk&t'&w'&Hw&Hr&Hok&Hp)]].
+  destruct (step_shape _ _ _ _ _ HC Hi) as [Hd|[(t'&w'&Hw&Hr&Hok&Hp)|(f&tk&t'&w'&Hw&Hwt&Hr&Hok&Hp)]].
   - rewrite (sched_step_done _ _ _ Hi Hd). auto.
   - destruct HC as [HI Hall]. unfold sched_step. rewrite Hi, Hr. simpl.
-    assert (Hnone : pend (c_ts c) i = None) by (unfold pend, pw; rewrite Hi; destruct Hw as [-> | ->]; auto).
-    eapply invF_ext; [eapply invF_after_exec; eauto | apply same_seq_refl |].
+    assert (Hnone : pend (c_ts c) i = None) by (unfold pend; rewrite Hi; auto).
+    eapply invF_ext; [eapply invF_after_exec; eauto | reflexivity | reflexivity |].
     intros j. eapply pend_upd; eauto.
   - destruct HC as [HI Hall]. unfold sched_step. rewrite Hi, Hr. simpl.
-    assert (Hp' : pend (c_ts c) i = Some (f, tk)) by (unfold pend, pw; rewrite Hi, Hw; auto).
+    assert (Hp' : pend (c_ts c) i = Some (f, tk)) by (unfold pend; rewrite Hi; auto).
     pose proof (inv_persist _ _ _ _ _ _ _ HI Hp') as HI1.
-    pose proof (invF_persist _ _ _ _ _ _ _ HI HF Hp' (fifo_ok_spec _ _ _ _ _ Hi Hw Hfifo)) as HF1.
+    pose proof (invF_persist _ _ _ _ _ _ _ HI HF Hp' (fifo_ok_spec _ _ _ _ _ Hi Hwt Hfifo)) as HF1.
     assert (Hn1 : Pupd (pend (c_ts c)) i None i = None) by (unfold Pupd; rewrite Nat.eqb_refl; auto).
     pose proof (invF_after_exec _ _ _ _ _ _ _ HI1 HF1 Hn1 Hp) as HF2.
-    eapply invF_ext; [exact HF2 | apply same_seq_refl |].
+    eapply invF_ext; [exact HF2 | reflexivity | reflexivity |].
     intros j. rewrite pupd_twice. eapply pend_upd; eauto.
 Qed.
 
@@ -538,13 +763,21 @@ Qed.
 
 (* ================================================================== 4. exported statements *)
 
-(* the world the scenario starts from: nothing on the (observed) wire yet, journal rows only below
-   the live counter, stored counter = live counter - 1 (what create_or_load / a quiescent session has) *)
+(* the world the scenario starts from: nothing on the (observed) wire yet, journal rows keyed by their
+   own number and below the live counter, stored counter = live counter - 1 (a quiescent session) *)
 Definition init_ok (w : world) : Prop :=
-  rwire w = [] /\ (forall k, nout w <= k -> row_at k (rows w) = None) /\ sout w = nout w - 1.
+  rwire w = [] /\ ent_ok w /\ sout w = nout w - 1.
+
+(* what a task may consist of: everything the library runs on the outbound path *)
+Definition base_instr (i : instr) : bool :=
+  match i with
+  | ISend m | ISendRest m => is_new m
+  | ITestReq | IStateHook _ _ | IHook | ISetRole _ | IResend _ _ _ => true
+  | IRaise _ => false
+  end.
 
 Definition fresh_task (t : task) : Prop :=
-  t_wait t = WStart /\ safe_code (t_code t) = true /\ t_out t = [] /\ t_exc t = None.
+  t_wait t = WStart /\ forallb base_instr (t_code t) = true /\ t_out t = [] /\ t_exc t = None.
 
 Definition in_drain (ts : list task) (f : frame) : Prop :=
   exists j t tk, nth_error ts j = Some t /\ t_wait t = WDrain f tk.
@@ -552,41 +785,57 @@ Definition in_drain (ts : list task) (f : frame) : Prop :=
 Definition no_dup_error (ts : list task) : Prop :=
   forall j t, nth_error ts j = Some t -> ~ In (OExc EDupSeq) (t_out t) /\ t_exc t <> Some EDupSeq.
 
-(* the full property on the final configuration c reached from world w0 *)
+(* the full property on the final configuration c reached from world w0; new = the new messages on the wire *)
 Definition safe_outcome (w0 : world) (c : config) (fifo : bool) : Prop :=
   let w := c_w c in
-  map f_seq (wire_of w) = zseq (nout w0) (length (wire_of w))
-  /\ nout w = nout w0 + Z.of_nat (length (wire_of w))
-  /\ Forall (fun f => f_pd f = false /\ f_ty f <> T_SEQRESET) (wire_of w)
+  let new := newf (wire_of w) in
+  map f_seq new = zseq (nout w0) (length new)
+  /\ nout w = nout w0 + Z.of_nat (length new)
+  /\ Forall (fun g => is_newf g = true \/ retx_ok (rows w) (nout w) g) (wire_of w)
   /\ no_dup_error (c_ts c)
-  /\ (forall f, In f (wire_of w) -> row_at (f_seq f) (rows w) = Some f \/ in_drain (c_ts c) f)
-  /\ (forall k f, nout w0 <= k -> row_at k (rows w) = Some f -> In f (wire_of w) /\ f_seq f = k)
+  /\ (forall f, In f new -> row_at (f_seq f) (rows w) = Some f \/ in_drain (c_ts c) f)
+  /\ (forall k f, nout w0 <= k -> row_at k (rows w) = Some f -> In f new /\ f_seq f = k)
   /\ (forall k, k < nout w0 -> row_at k (rows w) = row_at k (rows w0))
-  /\ (all_done c = true -> forall f, In f (wire_of w) -> row_at (f_seq f) (rows w) = Some f)
+  /\ (all_done c = true -> forall f, In f new -> row_at (f_seq f) (rows w) = Some f)
   /\ (fifo = true -> all_done c = true -> sout w = nout w - 1).
+
+Lemma base_cok : forall w c, forallb base_instr c = true -> cok w c.
+Proof.
+  intros w c H. unfold cok. apply Forall_forall. intros i Hi. rewrite forallb_forall in H. specialize (H _ Hi).
+  destruct i; simpl in *; auto; discriminate.
+Qed.
+
+Lemma ent_none : forall w k, ent_ok w -> nout w <= k -> row_at k (rows w) = None.
+Proof.
+  intros w k He Hk. destruct (row_at k (rows w)) as [f|] eqn:E; auto.
+  assert (Hin : In (k, f) (rows w)).
+  { clear -E. induction (rows w) as [|[a g] l IH]; simpl in *; [discriminate|].
+    destruct (a =? k) eqn:Ea; [apply Z.eqb_eq in Ea; inversion E; subst; auto|auto]. }
+  destruct (He _ _ Hin). lia.
+Qed.
+
+Lemma init_pend : forall ts, Forall fresh_task ts -> forall j, pend ts j = None.
+Proof.
+  intros ts Hts j. unfold pend. destruct (nth_error ts j) as [t|] eqn:E; auto.
+  rewrite Forall_forall in Hts. destruct (Hts _ (nth_error_In _ _ E)) as (Hwt&_). unfold pw. rewrite Hwt. auto.
+Qed.
 
 Lemma init_cinv : forall w0 ts, init_ok w0 -> Forall fresh_task ts -> CInv (nout w0) (rows w0) (mkC w0 ts).
 Proof.
-  intros w0 ts (Hw & Hr & Hs) Hts.
-  assert (Hp : forall j, pend ts j = None).
-  { intros j. unfold pend. destruct (nth_error ts j) as [t|] eqn:E; auto.
-    rewrite Forall_forall in Hts. destruct (Hts _ (nth_error_In _ _ E)) as (Hwt&_). unfold pw. rewrite Hwt. auto. }
+  intros w0 ts (Hw & He & Hs) Hts. pose proof (init_pend _ Hts) as Hp.
   split; simpl.
   - constructor; rewrite ?Hw; simpl; auto; try contradiction.
     + lia.
-    + intros k f Hk Hf. rewrite Hr in Hf by assumption. discriminate.
+    + intros k f Hk Hf. rewrite (ent_none _ _ He Hk) in Hf. discriminate.
     + intros j f tk Hj. rewrite Hp in Hj. discriminate.
     + intros j j' f f' tk tk' Hj. rewrite Hp in Hj. discriminate.
-  - intros j t Hj. rewrite Forall_forall in Hts. destruct (Hts _ (nth_error_In _ _ Hj)) as (_&Hc&Ho&He).
-    repeat split; auto; [rewrite Ho; intros []|rewrite He; discriminate].
+  - intros j t Hj. rewrite Forall_forall in Hts. destruct (Hts _ (nth_error_In _ _ Hj)) as (_&Hc&Ho&Hx).
+    repeat split; [apply base_cok; auto|rewrite Ho; intros []|rewrite Hx; discriminate].
 Qed.
 
 Lemma init_invF : forall w0 ts, init_ok w0 -> Forall fresh_task ts -> InvF w0 (pend ts).
 Proof.
-  intros w0 ts (Hw & Hr & Hs) Hts.
-  assert (Hp : forall j, pend ts j = None).
-  { intros j. unfold pend. destruct (nth_error ts j) as [t|] eqn:E; auto.
-    rewrite Forall_forall in Hts. destruct (Hts _ (nth_error_In _ _ E)) as (Hwt&_). unfold pw. rewrite Hwt. auto. }
+  intros w0 ts (Hw & He & Hs) Hts. pose proof (init_pend _ Hts) as Hp.
   constructor.
   - lia.
   - intros n Hn. lia.
@@ -608,17 +857,18 @@ Proof.
   intros w0 ts sched Hw Hts.
   pose proof (run_inv _ _ sched _ (init_cinv _ _ Hw Hts)) as [HI Hok].
   set (c := run_sched (mkC w0 ts) sched) in *.
-  unfold safe_outcome. unfold wire_of.
+  unfold safe_outcome. unfold wire_of, newf. rewrite filter_rev. fold (newf (rwire (c_w c))).
   pose proof (i_len _ _ _ _ HI) as Hlen.
   repeat split.
   - rewrite (consec_zseq _ _ (i_consec _ _ _ _ HI)), rev_length. f_equal. lia.
   - rewrite rev_length. lia.
-  - apply Forall_rev. apply (i_new _ _ _ _ HI).
+  - apply Forall_rev. apply (i_retx _ _ _ _ HI).
   - destruct (Hok _ _ H) as (_&Hc&_). exact Hc.
   - destruct (Hok _ _ H) as (_&_&He). exact He.
   - intros f Hf. apply in_rev in Hf. destruct (i_cover _ _ _ _ HI f Hf) as [|(j&tk&Hj)]; auto.
     right. unfold pend in Hj. destruct (nth_error (c_ts c) j) as [t|] eqn:E; [|discriminate].
-    exists j, t, tk. split; auto. unfold pw in Hj. destruct (t_wait t); try discriminate. inversion Hj; auto.
+    exists j, t, tk. split; auto. unfold pw in Hj. destruct (t_wait t) as [| |g tk2|]; try discriminate.
+    destruct (nojournal g); [discriminate|]. inversion Hj; auto.
   - rewrite <- in_rev. destruct (i_rows _ _ _ _ HI k f H H0); auto.
   - destruct (i_rows _ _ _ _ HI k f H H0); auto.
   - apply (i_low _ _ _ _ HI).
@@ -634,19 +884,22 @@ Qed.
 
 Lemma sender_fresh : forall ms, forallb is_new ms = true -> fresh_task (sender_task ms).
 Proof.
-  intros ms H. repeat split; simpl; auto. unfold safe_code. rewrite forallb_forall in *.
+  intros ms H. repeat split; simpl; auto. rewrite forallb_forall in *.
   intros i Hi. apply in_map_iff in Hi. destruct Hi as (m&<-&Hm). simpl. auto.
+Qed.
+
+Lemma senders_fresh : forall mss, Forall (fun ms => forallb is_new ms = true) mss ->
+  Forall fresh_task (map sender_task mss).
+Proof.
+  intros mss Hm. apply Forall_forall. intros t Ht. apply in_map_iff in Ht. destruct Ht as (ms&<-&Hin).
+  rewrite Forall_forall in Hm. apply sender_fresh; auto.
 Qed.
 
 Theorem senders_safe : forall (w0 : world) (mss : list (list msg)) (sched : list nat),
   init_ok w0 -> Forall (fun ms => forallb is_new ms = true) mss ->
   let c0 := mkC w0 (map sender_task mss) in
   safe_outcome w0 (run_sched c0 sched) (fifo_sched c0 sched).
-Proof.
-  intros w0 mss sched Hw Hm. apply safe_tasks_safe; auto.
-  apply Forall_forall. intros t Ht. apply in_map_iff in Ht. destruct Ht as (ms&<-&Hin).
-  rewrite Forall_forall in Hm. apply sender_fresh; auto.
-Qed.
+Proof. intros w0 mss sched Hw Hm. apply safe_tasks_safe; auto using senders_fresh. Qed.
 
 (* the reader inside the acceptor's Logon handling (3 hooks, 1 send) plus the heartbeat probe plus
    any number of application senders; whatever the connection state is when a task is resumed *)
@@ -657,8 +910,7 @@ Theorem logon_window_safe : forall (w0 : world) (mss : list (list msg)) (sched :
 Proof.
   intros w0 mss sched Hw Hm. apply safe_tasks_safe; auto.
   constructor; [repeat split; reflexivity|]. constructor; [repeat split; reflexivity|].
-  apply Forall_forall. intros t Ht. apply in_map_iff in Ht. destruct Ht as (ms&<-&Hin).
-  rewrite Forall_forall in Hm. apply sender_fresh; auto.
+  auto using senders_fresh.
 Qed.
 
 (* the other handlers of the reader task that send: TestRequest reply, gap ResendRequest, on_message *)
@@ -671,15 +923,28 @@ Proof.
   intros w0 r mss sched Hw Hr Hm. apply safe_tasks_safe; auto.
   constructor.
   { simpl in Hr. destruct Hr as [<-|[<-|[<-|[]]]]; repeat split; reflexivity. }
-  constructor; [repeat split; reflexivity|].
-  apply Forall_forall. intros t Ht. apply in_map_iff in Ht. destruct Ht as (ms&<-&Hin).
-  rewrite Forall_forall in Hm. apply sender_fresh; auto.
+  constructor; [repeat split; reflexivity|]. auto using senders_fresh.
 Qed.
 
-(* ================================================================== 5. witnesses *)
+(* the reader servicing ANY ResendRequest (any BeginSeqNo / EndSeqNo, any should_replay answers) while the
+   heartbeat probe and any number of application tasks send *)
+Theorem resend_window_safe : forall (w0 : world) (b e : Z) (d : list Z) (mss : list (list msg)) (sched : list nat),
+  init_ok w0 -> Forall (fun ms => forallb is_new ms = true) mss ->
+  let c0 := mkC w0 (reader_resend b e d :: heartbeat_task :: map sender_task mss) in
+  safe_outcome w0 (run_sched c0 sched) (fifo_sched c0 sched).
+Proof.
+  intros w0 b e d mss sched Hw Hm. apply safe_tasks_safe; auto.
+  constructor; [repeat split; reflexivity|]. constructor; [repeat split; reflexivity|].
+  auto using senders_fresh.
+Qed.
 
-Definition app (i : Z) : msg := mkMsg 68 i None false.
+(* ================================================================== 5. examples *)
+
+Definition app (i : Z) : msg := mkMsg 68 i None false false.
 Definition active0 : world := mkW 1 0 [] [] S_ACTIVE R_INITIATOR false 0.
+
+Lemma active0_ok : init_ok active0.
+Proof. repeat split; simpl; auto; contradiction. Qed.
 
 (* non-vacuity: two senders x two messages in state ACTIVE, a FIFO schedule; all four go out 1..4,
    all journaled, counter 4 *)
@@ -692,76 +957,62 @@ Lemma ex_nonvacuous :
   /\ map f_id (wire_of (c_w (run_sched ex_cfg ex_sched))) = [1; 3; 2; 4]
   /\ sout (c_w (run_sched ex_cfg ex_sched)) = 4
   /\ map fst (rows (c_w (run_sched ex_cfg ex_sched))) = [1; 2; 3; 4].
-Proof. split; [repeat split; auto|]. vm_compute. repeat split; reflexivity. Qed.
+Proof. split; [apply active0_ok|]. vm_compute. repeat split; reflexivity. Qed.
 
 (* the world after pre-history ms was sent by one task alone from a fresh session *)
 Fixpoint run_alone (fuel : nat) (c : config) : config :=
   match fuel with O => c | S f => if all_done c then c else run_alone f (sched_step c 0%nat) end.
 Definition after (pre : list msg) : world :=
-  c_w (run_alone (2 * length pre + 2) (mkC active0 [sender_task pre])).
+  let w := c_w (run_alone (2 * length pre + 2) (mkC active0 [sender_task pre])) in
+  mkW (nout w) (sout w) (rows w) [] (st w) (role w) (treq w) (tick w).
 
-Definition dup_number_on_wire (w : world) : Prop :=
-  exists f g, In f (wire_of w) /\ In g (wire_of w) /\ f_seq f = f_seq g /\ f_pd f = false /\ f_pd g = false
-              /\ f_ty f <> T_SEQRESET /\ f_ty g <> T_SEQRESET /\ f_id f <> f_id g.
+(* (number, PossDupFlag, id) of each frame, wire order *)
+Definition wire_view (w : world) : list (Z * bool * Z) := map (fun f => (f_seq f, f_pd f, f_id f)) (wire_of w).
 
-Definition some_dup_error (ts : list task) : Prop :=
-  exists j t, nth_error ts j = Some t /\ (In (OExc EDupSeq) (t_out t) \/ t_exc t = Some EDupSeq).
-
-(* highest MsgSeqNum of a new message on the wire *)
-Definition highest (w : world) : Z :=
-  fold_left Z.max (map f_seq (filter (fun f => negb (f_pd f) && negb (f_ty f =? T_SEQRESET)) (wire_of w))) 0.
-
-(* D12 as seen by C14: an application send STARTS while a ResendRequest is being serviced
-   (pre-history: 3 application messages; ResendRequest 1..0).  FIFO schedule, every task ends. *)
+(* The three schedules that broke the property before the repair of D12 (next_num_out rewound during the
+   replay): an application send that STARTS inside the ResendRequest service now gets the next free number. *)
 Definition rw_cfg : config := mkC (after [app 1; app 2; app 3]) [reader_resend 1 0 []; sender_task [app 9]].
-Definition rw_sched : list nat := [0; 0; 1; 0; 1; 0]%nat.
+Definition rw_sched : list nat := [0; 0; 1; 0; 1; 0; 0; 0; 0; 0; 0]%nat.
 
-Lemma resend_window_refuted :
+Lemma resend_window_example :
   let c := run_sched rw_cfg rw_sched in
-  fifo_sched rw_cfg rw_sched = true /\ valid_sched rw_cfg rw_sched = true /\ all_done c = true
-  /\ dup_number_on_wire (c_w c) /\ some_dup_error (c_ts c)
-  /\ sout (c_w c) = 1 /\ nout (c_w c) = 2 /\ highest (c_w c) = 3.
+  init_ok (c_w rw_cfg) /\ fifo_sched rw_cfg rw_sched = true /\ valid_sched rw_cfg rw_sched = true /\ all_done c = true
+  /\ wire_view (c_w c) = [(4, false, 9); (1, true, 1); (2, true, 2); (3, true, 3)]
+  /\ map fst (rows (c_w c)) = [1; 2; 3; 4] /\ sout (c_w c) = 4 /\ nout (c_w c) = 5 /\ st (c_w c) = S_ACTIVE.
 Proof.
-  cbv zeta. repeat split; try (vm_compute; reflexivity).
-  - exists (mkF 1 68 false 1), (mkF 1 68 false 9). vm_compute.
-    repeat split; auto 12; try discriminate.
-  - exists 0%nat. eexists. split; [vm_compute; reflexivity|]. right. reflexivity.
+  cbv zeta. split.
+  - split; [reflexivity|]. split; [|reflexivity].
+    intros k f H. vm_compute in H. destruct H as [H|[H|[H|[]]]]; inversion H; subst; simpl; split; auto; lia.
+  - vm_compute. repeat split; reflexivity.
 Qed.
 
-(* same window, the DuplicateSeqNoError goes to the application caller this time *)
 Definition rw_sched2 : list nat := [0; 0; 0; 0; 1; 1; 0; 0; 0; 0; 0]%nat.
 
-Lemma resend_window_caller_refuted :
+Lemma resend_window_caller_example :
   let c := run_sched rw_cfg rw_sched2 in
   fifo_sched rw_cfg rw_sched2 = true /\ valid_sched rw_cfg rw_sched2 = true /\ all_done c = true
-  /\ (exists t, nth_error (c_ts c) 1 = Some t /\ t_out t = [OExc EDupSeq])
-  /\ dup_number_on_wire (c_w c).
+  /\ wire_view (c_w c) = [(1, true, 1); (4, false, 9); (2, true, 2); (3, true, 3)]
+  /\ (exists t, nth_error (c_ts c) 1 = Some t /\ t_out t = [OOk])
+  /\ map fst (rows (c_w c)) = [1; 2; 3; 4] /\ sout (c_w c) = 4 /\ nout (c_w c) = 5.
 Proof.
   cbv zeta. repeat split; try (vm_compute; reflexivity).
-  - eexists. split; vm_compute; reflexivity.
-  - exists (mkF 1 68 false 1), (mkF 1 68 false 9). vm_compute.
-    repeat split; auto 12; try discriminate.
+  eexists. split; vm_compute; reflexivity.
 Qed.
 
-(* the heartbeat task's TestRequest: heartbeat_timer_task only probes in state ACTIVE, so it cannot
-   START inside the window - but a probe already suspended in drain when the ResendRequest arrives is
-   enough: its number is given out again to the tail gap fill, whose journal write fails, the handler
-   aborts and the counter stays rewound.  (pre-history 2 application messages; probe numbered 3) *)
+(* the heartbeat probe already suspended in drain (numbered 3, not journaled yet) when the ResendRequest
+   arrives: messages 1, 2 are retransmitted, 3 is covered by the tail gap fill 3 -> 4, the probe is journaled
+   under 3, nothing is reused *)
 Definition hb_cfg : config := mkC (after [app 1; app 2]) [reader_resend 1 0 []; heartbeat_task].
-Definition hb_sched : list nat := [1; 0; 0; 0; 1; 0; 0; 0; 0]%nat.
+Definition hb_sched : list nat := [1; 0; 0; 0; 1; 0; 0; 0; 0; 0]%nat.
 
-Lemma heartbeat_inflight_refuted :
+Lemma heartbeat_inflight_example :
   let c := run_sched hb_cfg hb_sched in
   fifo_sched hb_cfg hb_sched = true /\ valid_sched hb_cfg hb_sched = true /\ all_done c = true
-  /\ some_dup_error (c_ts c)
-  /\ (exists f g, In f (wire_of (c_w c)) /\ In g (wire_of (c_w c)) /\ f_seq f = 3 /\ f_seq g = 3
-                  /\ f_ty f = T_TESTREQ /\ f_ty g = T_SEQRESET)
-  /\ nout (c_w c) = 1 /\ highest (c_w c) = 3 /\ st (c_w c) = S_HANDLING.
-Proof.
-  cbv zeta. repeat split; try (vm_compute; reflexivity).
-  - exists 0%nat. eexists. split; [vm_compute; reflexivity|]. right. reflexivity.
-  - exists (mkF 3 49 false 0), (mkF 3 52 false 4). vm_compute. repeat split; auto 10.
-Qed.
+  /\ map (fun f => (f_seq f, f_ty f, f_pd f)) (wire_of (c_w c))
+     = [(3, T_TESTREQ, false); (1, 68, true); (2, 68, true); (3, T_SEQRESET, false)]
+  /\ map t_out (c_ts c) = [[OOk; OOk; OOk]; [OOk]] /\ map t_exc (c_ts c) = [None; None]
+  /\ map fst (rows (c_w c)) = [1; 2; 3] /\ sout (c_w c) = 3 /\ nout (c_w c) = 4 /\ st (c_w c) = S_ACTIVE.
+Proof. vm_compute. repeat split; reflexivity. Qed.
 
 (* why the wake-up rule is a hypothesis of the counter clause: LIFO wake-up of two drain waiters
    leaves the stored counter below the highest number sent (everything else still holds) *)
